@@ -459,7 +459,8 @@ def build(spec, hist, upto=None):
     return w
 
 
-def _expand(chunk):
+def _expand(arg):
+    chunk, last = arg
     spec = _SPEC
     out = []
     viol = []
@@ -505,12 +506,16 @@ def _expand(chunk):
             if d in local:
                 continue
             local.add(d)
-            out.append((d, nh))
+            if not last:
+                out.append((d, nh))
+    if last:
+        # final level: successor histories are not needed any more, only the distinct states
+        out = (b"".join(local) if spec.canonical else len(local), hist + (0,) if chunk else None)
     return out, viol, wit, ntrans, pruned
 
 
 def search(mon_factory, mode, ops, seedname, depth, seed=0, canonical=True, time_budget=None,
-           keep_states=False):
+           keep_states=False, max_level_transitions=150_000_000):
     """Level-synchronous BFS.  Returns dict with states, transitions, violations, witness, ..."""
     global _SPEC
     spec = Spec(mon_factory, mode, ops, seedname, canonical)
@@ -536,19 +541,46 @@ def search(mon_factory, mode, ops, seedname, depth, seed=0, canonical=True, time
         if time_budget is not None and time.time() - t0 > time_budget:
             res["cap_hit"] = True
             break
+        if len(frontier) * len(ops) > max_level_transitions:
+            res["cap_hit"] = True
+            res["cap"] = "level %d would need %d transitions (> %d)" % (d + 1, len(frontier) * len(ops), max_level_transitions)
+            break
         frontier = common.rotate(frontier, seed)
-        nchunks = max(1, min(len(frontier), common.NPROC * 6))
-        chunks = [frontier[i::nchunks] for i in range(nchunks)]
+        nchunks = max(1, min(len(frontier), common.NPROC * 6, max(common.NPROC, len(frontier) // 50)))
+        last = (d == depth - 1) and not keep_states
+        chunks = [(frontier[i::nchunks], last) for i in range(nchunks)]
         results = common.pool_map(_expand, chunks)
         nxt = []
         cand = []
+        n_last = 0
+        sample_last = []
         for out, viol, wit, ntrans, pruned in results:
             res["transitions"] += ntrans
             res["pruned_exceptions"] += pruned
             res["witness"].merge(wit)
             for v in viol:
                 res["violations"].append(v)
-            cand.extend(out)
+            if last:
+                blob, smp = out
+                if smp is not None and len(sample_last) < 3:
+                    sample_last.append(smp)
+                if isinstance(blob, int):
+                    n_last += blob
+                else:
+                    for i in range(0, len(blob), 12):
+                        dg = blob[i:i + 12]
+                        if dg not in seen:
+                            seen.add(dg)
+                            n_last += 1
+            else:
+                cand.extend(out)
+        if last:
+            res["depth_completed"] = d + 1
+            res["maximal"] = n_last
+            res["states"] = len(seen) if canonical else len(seen) + n_last
+            res["samples"] = [[spec.ops[i] for i in h] for h in sample_last]
+            res["wall_s"] = round(time.time() - t0, 1)
+            return res
         cand.sort(key=lambda x: x[1])  # deterministic choice of the representative history
         for dg, nh in cand:
             if dg not in seen:
